@@ -678,6 +678,20 @@ func (np negProp) Exec(c Case) []string {
 			defer lf.Close()
 		}
 	}
+	if v["cfgreuse"] == "true" {
+		// the application re-uses a configuration value that already went through NewClient for ANOTHER account of the
+		// same server (a struct copy with Jid and credential replaced): the new client is the new account's
+		decoy := *cfg
+		decoy.Jid = "decoy@localhost/other"
+		decoy.Credential = xmpp.Password("decoy-secret")
+		if _, err := xmpp.NewClient(&decoy, xmpp.NewRouter(), func(error) {}); err != nil {
+			return []string{"newclient-decoy:" + err.Error()}
+		}
+		c2 := decoy
+		c2.Jid = cfg.Jid
+		c2.Credential = cfg.Credential
+		cfg = &c2
+	}
 	client, err := xmpp.NewClient(cfg, xmpp.NewRouter(), func(error) {})
 	if err != nil {
 		return []string{"newclient:" + err.Error()}
